@@ -45,7 +45,7 @@ _TEMPLATE = "# Template for done logs.\n\n## Done {{ name }}\n\n"
 
 @st.composite
 def _case(draw):
-    d = draw(P.directory(2, 3, rich=True, max_headers=2, all_zids=True))
+    d = draw(P.directory(2, 3, rich=True, max_headers=3, all_zids=True))
     # plant mentions of other notes' ZIDs
     items = [(rel, it) for rel, pg in d.items() for it in P.iter_items(pg)]
     for _ in range(draw(st.integers(0, 3)) if len(items) >= 2 else 0):
@@ -80,6 +80,25 @@ def _case(draw):
         moves.append({"zid": it["zid"], "dest": draw(st.sampled_from(DEST_KINDS)),
                       "marker": draw(st.sampled_from([None, None, "x", "~"])),
                       "other": draw(st.integers(0, 5))})
+    # moves *within* the page: the note leaves its section (and what it inherited from that section's
+    # headers) for the end of the page.  Planted for notes that sit below a section header and are
+    # not in the last block of their page; put first so that the quick tier's cap on moves keeps them.
+    planted = []
+    for rel, pg in d.items():
+        in_secs = []
+
+        def walk(sec):
+            for bl in sec["blocks"]:
+                in_secs.extend(it for it in bl["items"] if "lines" in it)
+            for ch in sec["children"]:
+                walk(ch)
+        for sec in pg["secs"]:
+            walk(sec)
+        for it in in_secs[:-1]:
+            if draw(st.integers(0, 2)) == 0:
+                planted.append({"zid": it["zid"], "dest": "same", "marker": draw(st.sampled_from([None, None, "x", "~"])),
+                                "other": 0})
+    moves = planted[:2] + moves
     return {"dir": d, "today": "2024-06-15", "moves": moves}
 
 
